@@ -174,10 +174,12 @@ class bound_composite_array(base_array):
             raise ProphyError("exceeded array limit")
 
         composite_cls = self._TYPE
+        new_elements = []
         for message in elem_seq:
             new_element = composite_cls()
             new_element.copy_from(message)
-            self._values.append(new_element)
+            new_elements.append(new_element)
+        self._values.extend(new_elements)
 
     def __delitem__(self, idx):
         del self._values[idx]
